@@ -94,7 +94,7 @@ CHECKS = {
         "engine": "ENUM",
         "design_ref": "DESIGN.md 2.4, 3/C09",
         "technique": "bounded-exhaustive fragment sequences on the real lexer vs stock DebugLexer and a quote-aware reference lexer",
-        "text": "Every concatenation of <= 4 (quick) / <= 5 (thorough) of 32 lexer-relevant fragments, plus all length-5/6 sequences over an 11-fragment core, is lexed by parse_template under both multiline_tags settings and checked for exact partition, "
+        "text": "Every concatenation of <= 4 (quick) / <= 5 (thorough) of 34 lexer-relevant fragments, plus all length-5/6 sequences over an 11-fragment core, is lexed by parse_template under both multiline_tags settings and checked for exact partition, "
                 "contents and line numbers, for equality with stock DebugLexer where no tag is quoted and with a quote-aware reference lexer otherwise; the public Template() route (with and without a trailing unknown tag) must hand Django's Parser exactly the reference token stream and end with the same outcome, message, token and template_debug as Django's Parser on the reference tokens.",
         "note": "Django 5.1 DebugLexer as stock; backslash escapes honoured; single-line mode with a newline-crossing rescan and unterminated tags checked for the invariants only",
     },
